@@ -107,17 +107,24 @@ def writtenConn (x : XW) (synthetic closing : Bool) : List Bytes :=
   let fwd := if synthetic then [] else if containsToken x.resConn tokClose then [] else x.resConn
   if closing then tokClose :: fwd else fwd
 
+/-- The version on the status line: the response's own - the origin's for a relayed response, the
+request's for one made by `proxyutil.NewResponse`. -/
+def writtenMinor (x : XW) (synthetic : Bool) : Nat := if synthetic then x.reqMinor else x.resMinor
+
+/-- How `Response.Write` delimits the body (sanitised Body / ContentLength / TransferEncoding triple). -/
+def writtenFraming (x : XW) (synthetic : Bool) : WFraming :=
+  if synthetic then (if x.head then .noBody else .contentLength)  -- 200 / 502, empty body: `Content-Length: 0`
+  else if !bodyAllowed x then .noBody
+  else match effFraming x with
+    | .cl => .contentLength
+    | .chunked => if x.resMinor ≥ 1 then .chunked else .untilClose   -- `!atLeastHTTP11` drops the coding
+    | .eof => .untilClose
+
 def written (x : XW) (synthetic closing : Bool) : Written :=
-  let minor := if synthetic then x.reqMinor else x.resMinor
-  let fr : WFraming :=
-    if synthetic then (if x.head then .noBody else .contentLength)  -- 200 / 502, empty body: `Content-Length: 0`
-    else if !bodyAllowed x then .noBody
-    else match effFraming x with
-      | .cl => .contentLength
-      | .chunked => if minor ≥ 1 then .chunked else .untilClose   -- `!atLeastHTTP11` drops the coding
-      | .eof => .untilClose
+  let minor := writtenMinor x synthetic
+  let fr := writtenFraming x synthetic
   -- `Response.Write`: unknown length, not chunked, HTTP/1.1 → `Close` is forced on the copy it writes
-  let close' := closing || (decide (fr = .untilClose) && minor ≥ 1)
+  let close' := closing || (decide (fr = .untilClose) && decide (minor ≥ 1))
   { minor := minor, framing := fr,
     saysClose := shouldClose 1 minor (writtenConn x synthetic close') || decide (fr = .untilClose) }
 
